@@ -275,7 +275,7 @@ bool Directory::exists(const String& dir)
 bool Directory::create(const String& dir)
 {
   String parent = File::getDirectoryName(dir);
-  if(parent != "." && !Directory::exists(parent))
+  if(parent != "." && !parent.isEmpty() && !Directory::exists(parent))
   {
     if(!Directory::create(parent))
       return false;
@@ -285,11 +285,7 @@ bool Directory::create(const String& dir)
 #else
   if(mkdir(dir, S_IRUSR | S_IWUSR | S_IXUSR | S_IRGRP | S_IXGRP | S_IROTH | S_IXOTH) != 0)
 #endif
-  {
-    String basename = File::getBaseName(dir);
-    if(basename == "." || basename == "..")
-      return true;
-  }
+    return Directory::exists(dir); // already there (also "x/." and "x/..") or really not created
   return true;
 }
 
